@@ -5,7 +5,7 @@
    Model/Keys.v (for the DER containers: from asn1.Unmarshal's answer on that encoding), see
    Proofs/Keys.v.  lib / dec are the library answers that are not modelled (validity of an EC point,
    3DES); the theorems hold for all of them (lib only has to accept the key). *)
-From WI Require Import Lib.Base Lib.Info Lib.Strings Model.Keys Proofs.Keys.
+From WI Require Import Lib.Base Lib.Info Lib.Strings Model.Keys Proofs.Keys Proofs.KeysOpaque.
 Import gen.KeyTables.
 Open Scope N_scope.
 
@@ -341,6 +341,32 @@ Theorem C02_openssh_aead_refuted :
   /\ ossh_auth_len (bs "aes128-gcm@openssh.com") = 16%nat /\ ossh_auth_len (bs "aes256-ctr") = 0%nat.
 Proof. exact S3_witness. Qed.
 Print Assumptions C02_openssh_aead_refuted.
+
+(* ---------- private keys under algorithms the describers do not decode ---------- *)
+
+(* a PKCS#8 PrivateKeyInfo whose algorithm identifier is outside the describer's table (id-RSASSA-PSS, RSAES-OAEP,
+   dhKeyAgreement, X9.42 dhpublicnumber, id-ecDH, a private arc: C02_pkcs8_undecoded_examples), or rsaEncryption
+   around octets that do not decode as an RSAPrivateKey (an exponent beyond a machine integer): the description is
+   the bare label "PKCS#8 private key" - it says private key, and no attribute or child exists that could show an
+   octet of it - for ALL parameters and ALL privateKey octets.  That file.Inspect shows exactly this description for
+   the DER, base64 and PEM framings is the correspondence of the e2e cases named pkcs8-opaque *)
+Theorem C02_pkcs8_undecoded : forall alg d r e,
+  forallb (fun o => negb (oid_eqb alg o)) decoded_pkcs8_oids = true ->
+  with_desc "PKCS#8 private key" (pkcs8_attrs alg d r e) = Ok (Info (bs "PKCS#8 private key") [] []).
+Proof. exact pkcs8_undecoded_bare. Qed.
+Print Assumptions C02_pkcs8_undecoded.
+
+Theorem C02_pkcs8_rsa_undecodable : forall d e,
+  with_desc "PKCS#8 private key" (pkcs8_attrs oid_rsa d None e) = Ok (Info (bs "PKCS#8 private key") [] []).
+Proof. exact pkcs8_rsa_undecodable_bare. Qed.
+Print Assumptions C02_pkcs8_rsa_undecodable.
+
+Example C02_pkcs8_undecoded_examples :
+  forallb (fun alg => forallb (fun o => negb (oid_eqb alg o)) decoded_pkcs8_oids)
+    [[1; 2; 840; 113549; 1; 1; 10]; [1; 2; 840; 113549; 1; 1; 7]; [1; 2; 840; 113549; 1; 3; 1]; [1; 2; 840; 10046; 2; 1];
+     [1; 3; 132; 1; 12]; [1; 3; 6; 1; 4; 1; 99999; 1; 2]] = true.
+Proof. exact pkcs8_undecoded_examples. Qed.
+Print Assumptions C02_pkcs8_undecoded_examples.
 
 (* ---------- the hypotheses are met by ordinary keys ---------- *)
 
